@@ -435,6 +435,29 @@ fn gen_c16_sequences(ctx: &mut Ctx, rng: &mut Rng) {
             ctx.monitor(res == wanted, "C16-serial-exchange", &line, &format!("wanted [{}] got [{}]", &wanted[..wanted.len().min(300)], &res[..res.len().min(300)]));
         }
     }
+    // a long-lived bus: more than 65 536 exchanges (unanswered, unpaced messages), then ordinary ones with replies
+    {
+        let n = 65_540usize;
+        let mut msgs: Vec<String> = (0..n).map(|i| if i % 2 == 0 { format!("PC.{}", a) } else { "DC.2".to_string() }).collect();
+        msgs.push(format!("HE.{}", a));
+        msgs.push(format!("PC.{}", a));
+        msgs.push(format!("QS.{}", a));
+        let mut tape = enc_msg(&format!("RS.{}.UNC", a));
+        tape.extend(enc_msg(&format!("RS.{}.PLD", a)));
+        let line = format!("SBS {} {} {} /", msgs.len(), msgs.join(" "), hex_of_bytes(&tape));
+        let res = ctx.case(line, true, "long-lived-bus");
+        let parts: Vec<&str> = res.split(" | ").collect();
+        let outs: Vec<&str> = parts[0].split(" ; ").collect();
+        let ok = parts.len() == 3
+            && outs.len() == n + 3
+            && outs[..n].iter().all(|o| *o == "OK N")
+            && outs[n] == format!("OK RS.{}.UNC", a)
+            && outs[n + 1] == "OK N"
+            && outs[n + 2] == format!("OK RS.{}.PLD", a)
+            && parts[2] == "-";
+        let first_bad = outs.iter().position(|o| !o.starts_with("OK")).map(|i| format!("exchange #{} gave {}", i + 1, outs[i])).unwrap_or_default();
+        ctx.monitor(ok, "C16-serial-exchange", &format!("SBS <{} unanswered messages, then hello / pixels-complete / query> on one bus", n), &first_bad);
+    }
 }
 
 fn gen_c16(ctx: &mut Ctx) {
